@@ -140,6 +140,11 @@ class LibMap:
                 if ct1 is not None and (is_scalar(ct1) or ct1 == "vf_str"):
                     if ct0 == "vf_str" and op in ("+", "+=", "<", ">"):
                         return None
+                    if op in ("==", "!=") and {ct0, ct1} == {"vf_str", "char*"}:
+                        # std::string compared with a C string: content comparison -> compare string ids
+                        x, y = [self.str_fn(em, "vf_str_from_cstr", "vf_str", ["char*"], [em.E(a)])
+                                if c == "char*" else em.paren(em.E(a)) for a, c in ((a0, ct0), (args[1], ct1))]
+                        return "%s %s %s" % (x, op, y)
                     return "%s %s %s" % (em.paren(em.E(a0)), op, em.paren(em.E(args[1])))
             if op == "-" and len(args) == 1:
                 return "-%s" % em.paren(em.E(a0))
